@@ -713,6 +713,37 @@ def fragment(fn_text: str, path: str, kind: str, ordinal) -> str:
     kind == "let": `ordinal` is the NAME of the bound variable; the statement `let NAME ... ;` is returned."""
     src = Source(path, fn_text)
     toks = src.toks
+    if kind == "span":
+        # the top-level body statements from the one starting with marker A up to and including the one starting with marker B
+        # (`fragment span A ~~ B`), verbatim
+        ma, _, mb = str(ordinal).partition("~~")
+        ma, mb = re.sub(r"\s+", "", ma), re.sub(r"\s+", "", mb)
+        fnk = next(k for k in src.sig if toks[k].kind == "ident" and toks[k].text == "fn")
+        j = src.next_sig(fnk)
+        body_open = None
+        while j is not None:
+            if toks[j].kind == "punct" and toks[j].text == "{":
+                body_open = j
+                break
+            if toks[j].kind == "punct" and toks[j].text in OPEN:
+                j = src.match[j]
+            j = src.next_sig(j)
+        if body_open is None:
+            raise ExtractError(f"{path}: fn without body")
+        body_close = src.match[body_open]
+        k = src.next_sig(body_open)
+        starts, ends = [], []
+        while k is not None and k < body_close:
+            end = _stmt_end_in(src, k, body_close)
+            stmt = re.sub(r"\s+", "", src.text[toks[k].start:toks[end].end])
+            if stmt.startswith(ma):
+                starts.append(k)
+            if stmt.startswith(mb):
+                ends.append(end)
+            k = src.next_sig(end)
+        if len(starts) != 1 or len(ends) != 1 or toks[ends[0]].end <= toks[starts[0]].start:
+            raise ExtractError(f"{path}: anchor lost: span `{ordinal}`: start found {len(starts)} times, end found {len(ends)} times")
+        return src.text[toks[starts[0]].start:toks[ends[0]].end]
     if kind == "tail":
         # everything AFTER the body statement that starts with the marker text, up to the end of the fn body (tail expression included)
         marker = re.sub(r"\s+", "", str(ordinal))
